@@ -108,7 +108,11 @@ def energy_tokens(es: dict, n: int) -> list:
         uni = rs.uniform(-1.0, 1.0)
         row = ["%12.6f" % (0.0 if es.get("zero_time", True) else k * 0.002)]
         for c in range(ncol):
-            if c == target and es.get("half_range"):
+            if c == target and es.get("ramp"):
+                # energy rising shell by shell (a funnel): neighbours differ by < 500 kJ/mol, the total span is large
+                shell = (k // es["ramp"]["n_b"]) // es["ramp"]["n_o"]
+                v = es["ramp"]["slope"] * shell + uni * 10.0
+            elif c == target and es.get("half_range"):
                 v = uni * es["half_range"]  # wide spread, all differences below the 500 kJ/mol cap
             else:
                 v = vals[c + 1] * (es["sigma"] if c == target else 50.0) + (es.get("offset", 0.0) if c == target else 0.0)
@@ -199,6 +203,9 @@ def stage_S(d: str, p: dict, crash=None) -> dict:
     all_distances = gr.load_distances_array(os.path.join(d, GRID_FILES["distances_array"]))
     energies = EnergyReader(os.path.join(d, "energy." + p["energy_fmt"])).load_single_energy_column(p["energy_type"])
     sqra = SQRA(energies=energies, volumes=all_volumes, distances=all_distances, surfaces=all_surfaces)
+    for T_scan, D_scan in p.get("scan", []):
+        # a user scanning temperature / diffusion constant on the geometry that was loaded once
+        sqra.get_rate_matrix(D_scan, T_scan)
     rate_matrix = sqra.get_rate_matrix(p["D"], p["T"])
     rate_matrix, index_list = sqra.cut_and_merge(rate_matrix, T=p["T"], lower_limit=None, upper_limit=None)
     out = os.path.join(d, "rate_matrix.npz")
@@ -336,6 +343,7 @@ def run_stage(stage: str, args: dict, mode: str, hashseed: int = 0, rng_init=Non
 #   generation helpers shared by C14 and C20
 # ---------------------------------------------------------------------------------------------------------------------
 
+LONG_RADIAL_FORMS = ["linspace(0.1, 1.0, 10)", "arange(0.1, 0.85, 0.05)", "[0.1, 0.15, 0.2, 0.3, 0.35, 0.5, 0.6, 0.65]"]
 RADIAL_FORMS = ["[0.1, 0.2]", "[0.1, 0.25, 0.3]", "linspace(0.1, 0.5, 3)", "[0.3, 0.1, 0.2, 0.45]", "range(1, 4)",
                 "(0.2, 0.4)", "[0.15, 0.2, 0.5, 0.55]", "linspace(0.2,0.3,2)", "arange(0.1, 0.35, 0.1)", "[0.2, 0.5, 0.6]"]
 
@@ -346,7 +354,7 @@ def gen_grid_spec(rng: random.Random, max_cells: int, allow_f12: bool = True, ca
         nb = rng.choice([1, 1, rng.randint(4, 20), rng.randint(4, 9), 8, 9])
         o_alg = rng.choice(["ico", "cube3D", "randomS", ""])
         no = rng.choice([rng.randint(1, 26), rng.randint(4, 12), 12, 13, 1, 2, 3, 4])
-        t = rng.choice(RADIAL_FORMS)
+        t = rng.choice(RADIAL_FORMS) if rng.random() < 0.9 else rng.choice(LONG_RADIAL_FORMS)
         nt = _nt(t)
         if nb * no * nt > max_cells:
             continue
@@ -456,6 +464,11 @@ class PipelineCheck(Check):
         n = spec["n_b"] * spec["n_o"] * spec["n_t"]
         T = rng.choice([200.0, 250.0, 273.0, 300.0, 300.0, 350.0, 400.0, round(rng.uniform(230, 400), 1)])
         es = gen_energy_spec(rng)
+        if spec["n_t"] >= 5 and rng.random() < 0.7:
+            es["ramp"] = {"slope": rng.choice([100.0, 300.0, 450.0, -450.0]), "n_b": spec["n_b"], "n_o": spec["n_o"]}
+            es["half_range"] = None
+            es["sigma"] = 999
+            es["dup_frac"] = 0  # a repeated line would put an energy of another shell next door (beyond the cap)
         if es.get("half_range"):
             # wide spreads are there to approach the documented 500 kJ/mol cap from below: pair them with low
             # temperatures, where the exponents are largest
@@ -488,8 +501,7 @@ class PipelineCheck(Check):
                 # same cell count, different geometry
                 stale = dict(spec)
                 stale["factor"] = {2: 1, 1: 3.3, 0.5: 2, 3.3: 0.5}[spec["factor"]]
-                stale["t"] = next(t for t in RADIAL_FORMS if t != spec["t"] and
-                                  _nt(t) == spec["n_t"])
+                stale["t"] = next((t for t in RADIAL_FORMS if t != spec["t"] and _nt(t) == spec["n_t"]), spec["t"])
             else:
                 stale = gen_grid_spec(rng, 200, allow_f12=False)
         ops = []
@@ -538,7 +550,11 @@ class PipelineCheck(Check):
                 op["order"] = order
             ops.append(op)
             maybe_rng_fault()
-        return {"kind": "pipeline", "spec": spec, "T": T, "D": Dconst, "energy": es, "solver": solver, "stale": stale,
+        scan = []
+        if rng.random() < 0.3:
+            scan = [[rng.choice([200.0, 273.0, 350.0]), 10 ** rng.uniform(-3, 3)] for _ in range(rng.choice([1, 2]))]
+        return {"kind": "pipeline", "spec": spec, "T": T, "D": Dconst, "scan": scan, "energy": es, "solver": solver,
+                "stale": stale,
                 "rng_init": rng.randrange(2 ** 32), "dense_cap": 700 if tier == "quick" else 1600,
                 "cold_reference": rng.random() < 0.15, "ops": ops}
 
@@ -599,7 +615,9 @@ class PipelineCheck(Check):
                     crashing = op.get("crash") is not None
                 elif stage == "S":
                     args.update(p={"energy_fmt": sc["energy"]["fmt"], "energy_type": sc["energy"]["column"],
-                                   "D": sc["D"], "T": sc["T"]}, crash=op.get("crash"))
+                                   "D": sc["D"], "T": sc["T"], "scan": sc.get("scan", [])}, crash=op.get("crash"))
+                    if sc.get("scan"):
+                        probes["rate_matrix_scan_on_loaded_geometry"] = 1
                     crashing = op.get("crash") is not None
                 else:
                     args.update(s=sc["solver"], crash=op.get("crash"))
@@ -679,6 +697,11 @@ class PipelineCheck(Check):
                                        f"Q={Qd[i, j]!r}, adjacent={bool(Ad[i, j])}", key=f12_key)
         # (i) detailed balance per pair, in the symmetric (well conditioned) form
         i, j = np.nonzero(patQ | patQ.T)
+        below_cap = np.abs(E[i] - E[j]) < 499.0
+        if not np.all(below_cap):
+            # beyond the documented 500 kJ/mol cap detailed balance is not claimed
+            probes["pairs_beyond_cap_not_judged"] = int((~below_cap).sum())
+            i, j = i[below_cap], j[below_cap]
         hx = (E[i] - E[j]) / (2 * R_KJ * T)
         lhs = Qd[i, j] * V[i] * np.exp(-hx)
         rhs = Qd[j, i] * V[j] * np.exp(hx)
@@ -710,6 +733,8 @@ class PipelineCheck(Check):
             probes["disconnected_grid_skipped"] = 1
         if sc["energy"].get("half_range"):
             probes["wide_energy_spread_below_cap"] = 1
+        if sc["energy"].get("ramp"):
+            probes["radial_energy_ramp_many_shells"] = 1
         if sc["energy"].get("whole_numbers"):
             probes["integer_valued_energy_column"] = 1
         well = (sc["energy"]["sigma"] <= 3 and not sc["energy"].get("half_range") and T >= 250 and n >= 8
@@ -834,7 +859,8 @@ class PipelineCheck(Check):
 def _nt(t: str) -> int:
     return {"[0.1, 0.2]": 2, "[0.1, 0.25, 0.3]": 3, "linspace(0.1, 0.5, 3)": 3, "[0.3, 0.1, 0.2, 0.45]": 4,
             "range(1, 4)": 3, "(0.2, 0.4)": 2, "[0.15, 0.2, 0.5, 0.55]": 4, "linspace(0.2,0.3,2)": 2,
-            "arange(0.1, 0.35, 0.1)": 3, "[0.2, 0.5, 0.6]": 3}[t]
+            "arange(0.1, 0.35, 0.1)": 3, "[0.2, 0.5, 0.6]": 3, "linspace(0.1, 1.0, 10)": 10,
+            "arange(0.1, 0.85, 0.05)": 15, "[0.1, 0.15, 0.2, 0.3, 0.35, 0.5, 0.6, 0.65]": 8}[t]
 
 
 # ---------------------------------------------------------------------------------------------------------------------
